@@ -1,0 +1,56 @@
+//go:build verif
+
+// Contracts for the leader lock, checked by /verif/kbv (build tag "verif"). Comments only.
+
+package election
+
+//@ pred wf_lock(r) = r != nil && r.store != nil
+
+// lastVal is what this candidate last read (or created); it changes only by a successful read
+//@ func (*resourceLock).getRecord() (err)
+//@   props C14
+//@   nosafety
+//@   requires wf_lock(r)
+//@   modifies inferred:(*resourceLock).getRecord
+//@   ensures [last-read-only-from-the-store] r.lastVal == old(r.lastVal) || r.lastVal == last_get
+//@   ensures [no-write] commits == old(commits)
+
+//@ func (*resourceLock).getTso() (err)
+//@   props C14
+//@   nosafety
+//@   requires wf_lock(r)
+//@   modifies inferred:(*resourceLock).getTso
+//@   ensures [frame] r.lastVal == old(r.lastVal) && commits == old(commits)
+
+//@ func (*resourceLock).Get() (rec, err)
+//@   props C14
+//@   nosafety
+//@   requires wf_lock(r)
+//@   modifies inferred:(*resourceLock).Get
+//@   ensures [last-read-only-from-the-store] r.lastVal == old(r.lastVal) || r.lastVal == last_get
+//@   ensures [no-write] commits == old(commits)
+
+// Create: exactly one batch [PutIfNotExist(election key, record)]; at most one candidate can
+// succeed; the candidate adopts the bytes it wrote only on success
+//@ func (*resourceLock).Create(ler) (err)
+//@   props C14
+//@   nosafety
+//@   requires wf_lock(r) && !batch_open
+//@   modifies inferred:(*resourceLock).Create
+//@   ensures [at-most-one-batch] commits == old(commits) || commits == old(commits)+1
+//@   ensures [put-if-absent-only] commits == old(commits)+1 ==> bw_n[last_batch] == 1 && bw_kind[last_batch][0] == 1 && bw_key[last_batch][0] == r.electionKey
+//@   ensures [adopt-only-what-was-written] r.lastVal == old(r.lastVal) || (commits == old(commits)+1 && last_err == nil && r.lastVal == bw_val[last_batch][0])
+//@   ensures [failed-create-changes-nothing] commits == old(commits)+1 && last_err != nil ==> err != nil && r.lastVal == old(r.lastVal)
+
+// Update: exactly one batch [CAS(election key, record, lastVal)]: it can succeed only if the
+// stored record is still exactly what this candidate last read
+//@ func (*resourceLock).Update(ler) (err)
+//@   props C14
+//@   nosafety
+//@   requires wf_lock(r) && !batch_open
+//@   modifies inferred:(*resourceLock).Update
+//@   ensures [at-most-one-batch] commits == old(commits) || commits == old(commits)+1
+//@   ensures [cas-from-the-last-read] commits == old(commits)+1 ==> bw_n[last_batch] == 1 && bw_kind[last_batch][0] == 2 && bw_key[last_batch][0] == r.electionKey && bw_old[last_batch][0] == old(r.lastVal)
+//@   ensures [last-read-unchanged] r.lastVal == old(r.lastVal)
+//@   ensures [failed-commit-is-an-error] commits == old(commits)+1 && last_err != nil ==> err != nil
+//@   ensures [success-needs-a-commit] err == nil ==> commits == old(commits)+1 && last_err == nil
